@@ -184,6 +184,38 @@ def cut_gate(fn, actions, accept):
         if kind == "bool":
             ap, flip = peel_not(ap)
         acc = accept(kind, ap, info)
+        if acc is None and kind == "bool" and ap[0][0] == "local" and not ap[1]:
+            # a materialised boolean (`let z = a || b; if z`): the tested local has several definitions.  The switch's
+            # edge named E is taken only through a definition that can produce E, so when every *constant* definition has
+            # the opposite value and every other definition is a test accepted with E, cutting E is exactly cutting those
+            # tests' accepting edges.
+            defs = fn.defs().get(ap[0][1], [])
+            accs, consts, other = [], [], 0
+            for d in defs:
+                if d[0] == "stmt" and d[3].get("k") == "use":
+                    c = d[3]["a"].get("const") if isinstance(d[3]["a"], dict) else None
+                    if c is not None and c.get("ty") == "bool":
+                        consts.append("true" if c.get("int") else "false")
+                        continue
+                    dap, dflip = peel_not(fn.apath(d[3]["a"]))
+                    a2 = accept("bool", dap, info)
+                    if a2 is not None:
+                        accs.append({{"true": "false", "false": "true"}.get(x, x) for x in a2} if dflip else set(a2))
+                        continue
+                elif d[0] == "call":
+                    import facts as _facts
+                    t_ = d[2]
+                    nm = _facts.callee_name(t_["callee"]) if "callee" in t_ else "<indirect>"
+                    dap = (("call", nm, tuple(fn.apath(a) for a in t_["args"]), d[1]), ())
+                    a2 = accept("bool", dap, info)
+                    if a2 is not None:
+                        accs.append(set(a2))
+                        continue
+                other += 1
+            if accs and not other and all(a == accs[0] for a in accs) and len(accs[0]) == 1:
+                e = next(iter(accs[0]))
+                if all(c != e for c in consts):
+                    acc = accs[0]
         if acc is None:
             continue
         if flip:
